@@ -282,6 +282,8 @@ def fresh_session(cfg):
 
 
 def render_pipeline(stages, redir):
+    if not stages:
+        return "aneutral"
     parts = [STAGES[s][1] for s in stages]
     if redir:
         _cls, idx, text = redir
@@ -475,7 +477,8 @@ def classify(case, level, group, probs, hang_cmd=None, also=()):
         if group == "handler" and all(p.startswith("handler ") and ("-> PopenThread._signal_" in p or p.endswith("-> ProcProxyThread._signal_int"))
                                       for p in probs) and any("PopenThread" in p for p in probs):
             return "C09-F7"
-        if group == "sigint" and all("surfaced as None" in p and "PopenThread._signal_int" in p for p in probs):
+        if group == "sigint" and all("surfaced as None" in p and ("PopenThread._signal_int" in p or "ProcProxyThread._signal_int" in p)
+                                     for p in probs):
             return "C09-F7"
     if group == "sigint" and "std-closed" in also and shape_f3(case):
         # a non-last alias thread died printing to the closed stream: returncode None, its SIGINT handler (F2) swallows the signal
@@ -708,11 +711,14 @@ def check_case(case, tolerate=frozenset(), stats=None):
         st["base_fds"] = ob.fd_table()
     gc.enable()
     XSH = fresh_session(case["cfg"])
-    _run_src("aneutral\n")
-    gc.collect()
-    gc.disable()
     tty_fd = st["tty_fd"]
     std0 = st["std"]
+    pre = ob.snapshot(XSH, tty_fd=tty_fd, live=True)
+    _run_src("aneutral\n")          # warm-up: lazy initialisations of xonsh happen here, not inside the measured window
+    gc.collect()
+    warm = [p for p in ob.diff_state(pre, ob.snapshot(XSH, tty_fd=tty_fd), env_ignore=ENV_IGNORE) if not p.startswith("termios ")]
+    del pre
+    gc.disable()
 
     def snap():
         return ob.snapshot(XSH, tty_fd=tty_fd)
@@ -800,6 +806,10 @@ def check_case(case, tolerate=frozenset(), stats=None):
 
     for exc in excs:
         notes.append("exc:%s" % exc)
+    if warm:
+        # the neutral one-stage alias command used as warm-up changed the session state all by itself
+        failures.append(Failure("strict:" + _group_of(warm[0]), dict(case, cmds=[mk_cmd([], "bare")], reps=1),
+                                "[neutral command `aneutral` alone] " + "; ".join(warm)[:900], bucket="warmup:" + _group_of(warm[0])))
     if hang is not None:
         closed = [n for n, x in zip(("stdin", "stdout", "stderr"), std0) if ob._is_closed(x)]
         fid = classify(case, "hang", "hang", [], hang_cmd=hang if hang.get("stages") else None)
@@ -938,9 +948,18 @@ def _keep(case, one_in):
     return int(common.h64(case_key(case)), 16) % one_in == 0
 
 
+MAX_FAILING_CASES = 8       # per task: enough evidence; every further failing case costs grace periods and restores
+
+
 def _evaluate(case, st, family):
     s = _state
     if s["tainted"]:
+        st.discards += 1
+        return
+    if s.get("failing_cases", 0) >= MAX_FAILING_CASES:
+        if not s.get("stopped_note"):
+            st.notes.append("task stopped evaluating after %d failing cases" % MAX_FAILING_CASES)
+            s["stopped_note"] = True
         st.discards += 1
         return
     open_ids = s["open"]
@@ -971,6 +990,8 @@ def _evaluate(case, st, family):
                                                                    "reps": case["reps"]} if nontrivial else None, max_per_label=2)
     for f in fails:
         st.fail(f)
+    if any(not (f.finding and f.finding in open_ids) for f in fails):
+        s["failing_cases"] = s.get("failing_cases", 0) + 1
 
 
 def _dedupe(st):
@@ -987,11 +1008,13 @@ def _shrink(st, tier, seed):
     """Minimise one representative per bucket (structure shrink: drop commands, stages, redirects,
     repetitions; keep the same bucket)."""
     out = []
-    for f in st.failures:
-        if _state["tainted"] or f.kind == "hang" or (f.finding and f.finding in _state["open"]):
+    t0 = time.monotonic()
+    for n, f in enumerate(st.failures):
+        if _state["tainted"] or f.kind == "hang" or (f.finding and f.finding in _state["open"]) or n >= 3 or \
+                time.monotonic() - t0 > 20 or not f.case["cmds"][0]["stages"]:
             out.append(f)
             continue
-        out.append(_shrink_one(f))
+        out.append(_shrink_one(f, budget=12))
     st.failures = out
 
 
